@@ -315,8 +315,12 @@ pub enum BarStyle {
     Inside,
     NearlyFlat,
     Mixed,
+    /// every price a multiple of a tick (base/4) a few ticks around a slowly moving level, volumes from a
+    /// handful of round lots: quantised quotes. Typical prices of different bars tie exactly, highs and lows
+    /// repeat, closes repeat — and all the sums involved are exact in f64 when the tick is dyadic.
+    TickGrid,
 }
-pub const BAR_STYLES: [BarStyle; 6] = [BarStyle::Trend, BarStyle::Oscillate, BarStyle::Gappy, BarStyle::Inside, BarStyle::NearlyFlat, BarStyle::Mixed];
+pub const BAR_STYLES: [BarStyle; 7] = [BarStyle::Trend, BarStyle::Oscillate, BarStyle::Gappy, BarStyle::Inside, BarStyle::NearlyFlat, BarStyle::Mixed, BarStyle::TickGrid];
 
 /// Valid OHLCV bars (low <= open,close <= high, volume >= 0, all prices > 0) around a price path.
 /// `close` is deliberately *not* (high+low)/2.
@@ -339,6 +343,24 @@ impl BarGen {
     pub fn next(&mut self) -> Bar {
         self.i += 1;
         let style = if self.style == BarStyle::Mixed { *self.rng.pick(&BAR_STYLES[..5]) } else { self.style };
+        if style == BarStyle::TickGrid {
+            let r = &mut self.rng;
+            let tick = self.base * 0.25;
+            let mut k = (self.price / tick).round();
+            k = (k + (r.below(5) as f64 - 2.0)).clamp(8.0, 4000.0);
+            self.price = k * tick;
+            let o = k + (r.below(5) as f64 - 2.0);
+            let c = k + (r.below(5) as f64 - 2.0);
+            let h = o.max(c) + r.below(3) as f64;
+            let l = o.min(c) - r.below(3) as f64;
+            let lots = [0.0, 100.0, 100.0, 200.0, 500.0, 1000.0];
+            let bar = match self.prev {
+                Some(pb) if r.chance(0.06) => pb,
+                _ => Bar { o: o * tick, h: h * tick, l: l * tick, c: c * tick, v: lots[r.below(lots.len())] },
+            };
+            self.prev = Some(bar);
+            return bar;
+        }
         let r = &mut self.rng;
         let lo_b = self.base;
         let hi_b = self.base * 1000.0;
@@ -377,7 +399,7 @@ impl BarGen {
                     (p, p * (1.0 + 1e-9 * r.normal()), 1e-10)
                 }
             }
-            BarStyle::Mixed => unreachable!(),
+            BarStyle::Mixed | BarStyle::TickGrid => unreachable!(),
         };
         let open = open.clamp(lo_b, hi_b);
         let close = close.clamp(lo_b, hi_b);
